@@ -312,7 +312,7 @@ int main(int argc, char** argv) {
           if (max_items < 2) continue;
           for (size_t j = 0; j < al.size(); j++) {
             if (c.mine(idx++)) {
-              if ((idx & 255) == 0 && c.out_of_time()) goto done;
+              if (c.tick(256)) goto done;
               Case cs{arch, base, (bool)known, {al[i], al[j]}, (bool)extra}; cs.label_mode = int((i + 3 * j) & 3);
               if (!run_case(cs)) report(cs);
             }
@@ -320,7 +320,7 @@ int main(int argc, char** argv) {
             // thorough: triples where the third item runs over every 5th symbol
             for (size_t k = (i + j) % 5; k < al.size(); k += 5) {
               if (!c.mine(idx++)) continue;
-              if ((idx & 255) == 0 && c.out_of_time()) goto done;
+              if (c.tick(256)) goto done;
               Case cs{arch, base, (bool)known, {al[i], al[j], al[k]}, (bool)extra};
               if (!run_case(cs)) report(cs);
             }
